@@ -129,7 +129,8 @@ pub fn consume(ctx: &Arc<RunCtx>, tls: &mut ThreadLocalState, p: usize, n: usize
 
 pub fn drop_stream(ctx: &Arc<RunCtx>, tls: &mut ThreadLocalState, p: usize) {
     let st = &ctx.pipes[p];
-    if let Some(s) = tls.streams.remove(&p) {
+    let stream = tls.streams.remove(&p).or_else(|| ctx.stream_stash.lock().unwrap().remove(&p));
+    if let Some(s) = stream {
         // classify what the producer is doing right now (C16): 1 idle, 2 mid-item, 3 throttled
         let def = &ctx.prog.pipes[p];
         let mid = def.items.iter().any(|op| ctx.recs[*op].start.load(ORD) != 0 && ctx.recs[*op].end.load(ORD) == 0);
@@ -138,7 +139,16 @@ pub fn drop_stream(ctx: &Arc<RunCtx>, tls: &mut ThreadLocalState, p: usize) {
         let class = if mid { 2 } else if produced - consumed.min(produced) >= def.depth { 3 } else { 1 };
         st.drop_class.store(class, ORD);
         let _b = ctx.blocked(PIPE_BASE + p, PH_DROPSTREAM);
-        std::mem::drop(s);
+        if ctx.prog.panics {
+            // (panic scenarios) letting go of a pipe's output stream is an operation like any other: on a healthy object it must work
+            let r = std::panic::catch_unwind(std::panic::AssertUnwindSafe(move || std::mem::drop(s)));
+            if r.is_err() && !crate::oracle::object_panicked(ctx, def.obj) {
+                ctx.report("C15", "operation_on_healthy_object_panicked", "healthy_pipe_output_stream_drop_panicked".into(),
+                    format!("dropping the output stream of pipe {} on healthy object {} panicked after another object had panicked", p, def.obj));
+            }
+        } else {
+            std::mem::drop(s);
+        }
         st.stream_dropped.store(clock(), ORD);
     }
 }
